@@ -2,8 +2,10 @@ import Ypv.Model.Merge
 /-!
 # Declarative reading of the merge policies (the option docstrings of `merger/enums/*.py`)
 
-Only data: what the merged value is, by kind pair and policy.  Key order of merged mappings is
-specified separately (`OrderOK`), and only as far as the property statement goes.
+What the merged value is, by kind pair and policy: arrays and sets as functions (`arrayMerge`,
+`setMerge`), deep hash merges per key (`Merged`), Array-of-Hashes DEEP merges per right-hand record
+(`AohStep` / `AohDeep`, `KeysGrow`).  Key order of merged mappings is specified separately
+(`OrderOK`), and only as far as the property statement goes.
 -/
 namespace Ypv.Merge.Spec
 
@@ -45,4 +47,53 @@ def OrderOK (l r m : List (Key × Node)) : Prop :=
   (keys m).filter (fun k => (keys l).contains k) = keys l ∧
   (keys m).filter (fun k => !(keys l).contains k) = (keys r).filter (fun k => !(keys l).contains k)
 
+/-- What a DEEP hash merge of a right-hand mapping (`par`, consulted for per-node rules) leaves under
+the key `k`, as a relation between `l.get(k)`, the right-hand value `rv = r[k]` and `m.get(k)`:
+
+* a key only in `r` gets `r`'s value;
+* a key in both: the policy of the right-hand value's own kind (or a rule registered for that node)
+  decides — LEFT keeps the left-hand value, RIGHT takes the right-hand value, otherwise the value is
+  the recursive merge `mergeVal` of the two values (which must succeed).
+
+Keys that `r` does not name are covered by `lookupKey k m = lookupKey k l` in the theorems. -/
+inductive Merged (env : Env) (par : Node) (k : Key) : Option Node → Node → Option Node → Prop
+  | rightOnly (rv : Node) : Merged env par k none rv (some rv)
+  | keepLeft (lv rv : Node) : shortCircuit env ⟨rv, some par, some (.key k)⟩ = .ok .keepLeft →
+      Merged env par k (some lv) rv (some lv)
+  | takeRight (lv rv : Node) : shortCircuit env ⟨rv, some par, some (.key k)⟩ = .ok .takeRight →
+      Merged env par k (some lv) rv (some rv)
+  | deep (lv rv m : Node) : shortCircuit env ⟨rv, some par, some (.key k)⟩ = .ok .goDeep →
+      mergeVal env lv ⟨rv, some par, some (.key k)⟩ rv = .ok m →
+      Merged env par k (some lv) rv (some m)
+
+/-- One right-hand record `{es}` under AoH DEEP with identity key `idKey`, as a relation between the
+left-hand list before and after: the record must carry the identity key; when no left-hand element
+carries the same identity (`recordMatches`: `==` after `typed_value`) the record is appended;
+otherwise the **first** such element `lh` is replaced, in place, by the deep hash merge of the record
+into it (`mergeDicts`, characterised per key by `merge_content_eq_spec`), which must succeed. -/
+inductive AohStep (env : Env) (idKey : Key) (litems : List Node) (a : Option Str)
+    (es : List (Key × Node)) : List Node → Prop
+  | append (idv : Node) : lookupKey idKey es = some idv →
+      (∀ x ∈ litems, recordMatches env idKey (typedNode env idv) x = false) →
+      AohStep env idKey litems a es (litems ++ [.map a es])
+  | merge (idv : Node) (pre : List Node) (lh : Node) (post : List Node) (m : Node) :
+      lookupKey idKey es = some idv → litems = pre ++ lh :: post →
+      (∀ x ∈ pre, recordMatches env idKey (typedNode env idv) x = false) →
+      recordMatches env idKey (typedNode env idv) lh = true →
+      mergeDicts env lh (.map a es) es = .ok m →
+      AohStep env idKey litems a es (pre ++ m :: post)
+
+/-- AoH DEEP: the right-hand records are taken one after the other (`AohStep`), each against the
+list as the previous ones left it. -/
+inductive AohDeep (env : Env) (idKey : Key) : List Node → List Node → List Node → Prop
+  | nil (l : List Node) : AohDeep env idKey l [] l
+  | cons (l l1 out : List Node) (a : Option Str) (es : List (Key × Node)) (rest : List Node) :
+      AohStep env idKey l a es l1 → AohDeep env idKey l1 rest out →
+      AohDeep env idKey l (.map a es :: rest) out
+
+/-- `y` is `x`, or both are Hashes (same annotation) and `y` has at least `x`'s keys. -/
+inductive KeysGrow : Node → Node → Prop
+  | same (x : Node) : KeysGrow x x
+  | grown (a : Option Str) (es es' : List (Key × Node)) : (∀ k ∈ keys es, k ∈ keys es') →
+      KeysGrow (.map a es) (.map a es')
 end Ypv.Merge.Spec
